@@ -260,7 +260,9 @@ def cmdline_handler(argv):
         runpy.run_module(hy.mangle(action_arg), run_name="__main__", alter_sys=True)
         return 0
     elif action == "run_script_stdin":
-        sys.argv = argv
+        # As in Python, `sys.argv[0]` always exists: it's "-" for `hy -`
+        # and "" when standard input is used for lack of arguments.
+        sys.argv = argv or [""]
         if not repl:
             return run_command(sys.stdin.read(), filename="<stdin>")
     elif action == "run_script_file":
